@@ -86,6 +86,7 @@ package fasthttp
 //@ monitor perIPConn lock
 //@   property C12
 //@   protects Conn
+//@   skip acquirePerIPConn: the wrapper was just taken from the pool (or created) and is not shared with anyone yet
 
 //@ func perIPConn.Close results err
 //@   property C12
@@ -107,6 +108,7 @@ package fasthttp
 //@ monitor perIPTLSConn lock
 //@   property C12
 //@   protects Conn
+//@   skip acquirePerIPConn: the wrapper was just taken from the pool (or created) and is not shared with anyone yet
 
 //@ func perIPTLSConn.Close results err
 //@   property C12
@@ -175,3 +177,13 @@ package fasthttp
 //@   nooverflow
 //@   ensures[counts-one-less] cc.m[ip] == (atlock(cc.m[ip]) > 1 ? atlock(cc.m[ip]) - 1 : 0)
 //@   ensures[others-untouched] forall k in [0, 4294967296): k != ip ==> cc.m[k] == atlock(cc.m[k])
+
+// acquirePerIPConn (C12): a wrapper taken from the pool is re-pointed completely -- connection and address -- before it
+// is handed out; Close unregisters the address stored in the wrapper, so a stale address would take the count off
+// some other client and leave this one's count up forever.
+//@ func acquirePerIPConn results w
+//@   property C12
+//@   mode skeleton
+//@   fields perIPConn
+//@   class perIPConnCounter kept: the pool belongs to this counter, a recycled wrapper already points at it
+//@   class lock kept: the wrapper's own mutex, unlocked when the wrapper is pooled
